@@ -8,6 +8,7 @@ package sim
 // reported by the parent.
 
 import (
+	"encoding/json"
 	"fmt"
 	"sort"
 
@@ -17,6 +18,7 @@ import (
 	"berty.tech/go-ipfs-log/iface"
 	"github.com/ipfs/go-cid"
 	cbornode "github.com/ipfs/go-ipld-cbor"
+	dag "github.com/ipfs/go-merkledag"
 	mh "github.com/multiformats/go-multihash"
 )
 
@@ -254,6 +256,10 @@ func exerciseEntry(w *World, e iface.IPFSLogEntry, honest iface.IPFSLogEntry) {
 
 func RunC12(r *Run) {
 	w := BuildWorld(r, sourceProfile("C12"))
+	if r.Choose("legacy-scenario", 3) == 0 {
+		r.T.Mark()
+		w.pbScenario()
+	}
 	nscen := 2 + r.Choose("nscen", 4)
 	for s := 0; s < nscen; s++ {
 		r.T.Mark()
@@ -452,4 +458,131 @@ func minInt(a, b int) int {
 		return a
 	}
 	return b
+}
+
+// ---------------------------------------------------------------- legacy (v0, dag-pb) blocks
+
+var v0FieldPaths = []string{"hash", "id", "payload", "next", "next.0", "v", "clock", "clock.id", "clock.time", "key", "sig"}
+
+// pbScenario: a small stored history of legacy v0 blocks (JSON inside a dag-pb node), one of them
+// corrupted at the JSON level or the byte level; decoded in-process and loaded with the legacy codec.
+func (w *World) pbScenario() {
+	r := w.R
+	pbio := pbIO()
+	st := NewStore()
+	st.OnFault = func(k string) { r.Fault(k) }
+	key := "0411a0d38181c9374eca3e480ecada96b1a4db9375c5e08c3991557759d22f6f2f902d0dc5364a948035002504d825308b0c257b7cbb35229c2076532531f8f4ef"
+	sig := "3044022062f4cfc8b8f3cc01283b25eab3eeb295614bb0faa8bd20f026c1487ae663121102207ce415bd7423b66d695338c17122e937259f77d1e86494d3146436f0959fccc6"
+	n := 2 + r.Choose("v0-chain", 4)
+	var cids []cid.Cid
+	var raws [][]byte
+	var objs []map[string]interface{}
+	for i := 0; i < n; i++ {
+		obj := map[string]interface{}{"hash": nil, "id": "A", "payload": fmt.Sprintf("v0-%d", i), "next": []interface{}{}, "v": 0,
+			"clock": map[string]interface{}{"id": key, "time": i}, "key": key, "sig": sig}
+		if i > 0 {
+			obj["next"] = []interface{}{cids[i-1].String()}
+		}
+		b, _ := json.Marshal(obj)
+		nd := &dag.ProtoNode{}
+		nd.SetData(b)
+		if err := st.Dag().Add(w.ctx, nd); err != nil {
+			r.Harness("pb add: %v", err)
+		}
+		cids = append(cids, nd.Cid())
+		raws = append(raws, nd.RawData())
+		objs = append(objs, obj)
+	}
+	victim := r.Choose("v0-victim", n)
+	how := r.Choose("v0-how", 8)
+	var alt []byte
+	desc := ""
+	if how < 6 {
+		// JSON-level mutation
+		obj := map[string]interface{}{}
+		b, _ := json.Marshal(objs[victim])
+		json.Unmarshal(b, &obj)
+		path := v0FieldPaths[r.Choose("v0-path", len(v0FieldPaths))]
+		kind := r.Choose("v0-kind", len(mutKinds))
+		if !mutateObj(obj, path, kind) {
+			r.Logf("v0 mutation not applicable")
+			return
+		}
+		b, _ = json.Marshal(obj)
+		nd := &dag.ProtoNode{}
+		nd.SetData(b)
+		alt = nd.RawData()
+		desc = fmt.Sprintf("v0 json:%s:%s", path, mutKinds[kind])
+	} else if how == 6 {
+		alt = append([]byte(nil), raws[victim]...)
+		i := r.Choose("flip-pos", len(alt))
+		alt[i] ^= 1 << uint(r.Choose("flip-bit", 8))
+		desc = fmt.Sprintf("v0 bitflip@%d", i)
+	} else {
+		alt = append([]byte(nil), raws[victim][:r.Choose("trunc", len(raws[victim]))]...)
+		desc = "v0 truncate"
+	}
+	st.GetFaults[cids[victim].String()] = FaultCorrupt
+	st.Alt[cids[victim].String()] = alt
+	r.Fault("corrupt-v0")
+	r.Logf("legacy history of %d v0 blocks, block %d corrupted: %s", n, victim, desc)
+	honestIdx := 0
+	if victim == 0 {
+		honestIdx = 1
+	}
+	honest, err := entry.FromMultihashWithIO(w.ctx, st, cids[honestIdx], Writers()[0].ID.Provider, pbio)
+	if err != nil {
+		r.Violate("C12:v0-decode", "an untouched legacy v0 block does not decode: %v", err)
+	}
+	var dec iface.IPFSLogEntry
+	var derr error
+	out := Protect(func() { dec, derr = entry.FromMultihashWithIO(w.ctx, st, cids[victim], Writers()[0].ID.Provider, pbio) })
+	if out.Status == "violation" {
+		r.Violate("C12:decode-panic", "decoding a corrupted legacy block (%s) panicked: %s", desc, out.Msg)
+	} else if out.Status != "ok" {
+		r.Harness("%s", out.Msg)
+	}
+	if derr == nil && dec != nil {
+		r.Probe("corrupt-block-still-decodes")
+		saved := w.IO
+		w.IO = pbio
+		out := Protect(func() { exerciseEntry(w, dec, honest) })
+		w.IO = saved
+		if out.Status == "violation" {
+			r.Violate("C12:accessor-panic", "an entry decoded without error from a corrupted legacy block (%s) is not safe to use: %s", desc, out.Msg)
+		} else if out.Status != "ok" {
+			r.Harness("%s", out.Msg)
+		}
+	}
+	// load the history from its head with the legacy codec, under the driver: a panic on a fetch
+	// goroutine kills this process and is reported by the parent
+	var l *ipfslog.IPFSLog
+	d := &FetchDriver{R: r, St: st, HookBias: r.Choose("bias", 3)}
+	conc := w.pickConc()
+	out = Protect(func() {
+		d.Run(func() {
+			l, err = ipfslog.NewFromEntryHash(w.ctx, st, Writers()[4].ID, cids[n-1], &ipfslog.LogOptions{ID: "A", IO: pbio}, &ipfslog.FetchOptions{Concurrency: conc})
+		})
+	})
+	if out.Status == "violation" {
+		r.Violate("C12:load-panic", "loading a legacy history containing a corrupted block (%s) panicked: %s", desc, out.Msg)
+	} else if out.Status != "ok" {
+		r.Harness("%s", out.Msg)
+	}
+	if err != nil || l == nil {
+		r.Violate("C12:load-error", "loading a legacy history failed entirely because of one corrupted block (%s): %v", desc, err)
+	}
+	out = Protect(func() {
+		_ = l.Values()
+		_ = l.Heads()
+	})
+	if out.Status == "violation" {
+		r.Violate("C12:loaded-log-panic", "a log loaded from a legacy history with a corrupted block (%s) panics when read: %s", desc, out.Msg)
+	}
+	if derr != nil {
+		// the blocks above the corrupted one must still load
+		if got := l.Len(); got != n-1-victim {
+			r.Violate("C12:remaining-history", "legacy history of %d blocks with block %d undecodable (%s): loaded %d entries, %d remain retrievable", n, victim, desc, got, n-1-victim)
+		}
+	}
 }
